@@ -6,7 +6,7 @@ for d in seeded/*/; do
   line="$id"
   for sd in $1; do
     (cd /repo && git apply /verif/seeded/$id/patch.diff) || { line="$line APPLYFAIL"; continue; }
-    out=$(VERIF_SEED=$sd VERIF_NO_ESCALATE=1 ./check $prop --tier quick 2>&1 | grep 'tier=')
+    out=$(VERIF_SEED=$sd VERIF_NO_ESCALATE=1 VERIF_NO_FINGERPRINT=1 ./check $prop --tier quick 2>&1 | grep 'tier=')
     git -C /repo checkout -q -- .
     v=$(echo "$out" | sed 's/.*violations=\([0-9]*\).*/\1/')
     line="$line s$sd=$v"
